@@ -230,6 +230,17 @@ def correspondence(ctx, model_ok=True):
     # (jump distances, operand counts, constants, captured variables): the compiler must answer, with a function or located messages
     cases += limit_declaration_cases()
     cases += recovery_pair_cases(ctx.thorough)
+    # VOLUME of errors: N faulty statements (N around the widths of small counters) in one source - every one is reported, the result is an
+    # error whatever N is; and long uninterrupted RUNS of characters no token starts with (every one is an error token; skipping them
+    # must not nest), with and without line ends between them, in one-byte and multi-byte spelling
+    for n in (1, 2, 127, 128, 255, 256, 257, 511, 512, 1024) + ((4096, 65535, 65536, 65537) if ctx.thorough else ()):
+        cases.append(("manyerrors:var:%d" % n, "".join("var %d;\n" % k for k in range(n)) + "print(\"after\");\n"))
+        cases.append(("manyerrors:mixed:%d" % n, "".join(("var ok%d = 1;\n" % k) if k % 2 else ("print(;\n") for k in range(2 * n)) + "print(\"after\");\n"))
+        cases.append(("manyerrors:chars:%d" % n, "var a = 1;\n" + "@ " * n + "\nprint(a);\n"))
+    for ch in ("@", "\u00e9", "`"):
+        for n in (1000, 20000, 120000) + ((500000,) if ctx.thorough else ()):
+            cases.append(("errorrun:%s:%d" % (ch.encode("unicode_escape").decode(), n), "// junk follows\n" + ch * n + "\nprint(1);\n"))
+            cases.append(("errorrun-lines:%s:%d" % (ch.encode("unicode_escape").decode(), n), "// junk follows\n" + (ch * 100 + "\n") * (n // 100) + "print(1);\n"))
     from props import c04 as _c04
     cases += [("limit:" + n, src) for n, src, _ in _c04.limit_programs() if ctx.thorough or ":constants:" not in n and ":constvalues:" not in n]
     lines = [vlib.case_line("c%d" % i, ["C:" + vlib.hx(src)], bytecode=1) for i, (_, src) in enumerate(cases)]
